@@ -244,6 +244,130 @@ theorem mvem_exact_tetrahedron (K Kinv : Mat 3 3) (c : Vec 3) (V σ diam weight 
   exact (mvem_linear_exact_local 3 4 K Kinv (invMatrix3d (mvemG 3 K V diam)) c V diam weight hdiam _ _ s hK
     (inv3d_correct _ (mvemG_symm 3 K V diam hK) hG) hdiv a b).1
 
+/-! ## from one cell to the grid: global mass matrices, unique solvability, global exactness -/
+
+/-- The assembled RT0 mass matrix (local matrices scattered by the face map) is symmetric positive
+    definite on every grid of non-degenerate simplices in which each face belongs to a cell. -/
+theorem rt0_global_mass_spd (d nf nc : Nat) (hd : 1 ≤ d) (f : Fin nc → Fin (d + 1) → Fin nf)
+    (Kinv : Fin nc → Mat d d) (V : Fin nc → Rat) (x : Fin nc → Fin (d + 1) → Vec d) (s : Fin nc → Vec (d + 1))
+    (hK : ∀ c, PosDef (Kinv c)) (hKs : ∀ c, IsSymm (Kinv c)) (hV : ∀ c, 0 < V c)
+    (hx : ∀ c, AffineIndep (x c)) (hs : ∀ c j, s c j ≠ 0) (hcov : ∀ F, ∃ c j, f c j = F) :
+    IsSymm (assemble nf nc (d + 1) f fun c => rt0Mass d (Kinv c) (V c) (x c) (s c)) ∧
+    PosDef (assemble nf nc (d + 1) f fun c => rt0Mass d (Kinv c) (V c) (x c) (s c)) :=
+  ⟨assemble_symm _ _ _ f _ (fun c => rt0_local_mass_symmetric d (Kinv c) (V c) (x c) (s c) (hKs c)),
+   assemble_spd _ _ _ f _
+     (fun c => rt0_local_mass_psd d (Kinv c) (V c) (x c) (s c) (posDef_semidef _ (hK c)) (hV c))
+     (fun F => by
+        obtain ⟨c, j, h⟩ := hcov F
+        exact ⟨c, j, h, rt0_local_mass_spd d hd (Kinv c) (V c) (x c) (s c) (hK c) (hV c) (hx c) (hs c)⟩)⟩
+
+/-- … and so is the assembled MVEM mass matrix (cells with `m` faces each). -/
+theorem mvem_global_mass_spd (d m nf nc : Nat) (f : Fin nc → Fin m → Fin nf)
+    (K Kinv Ginv : Fin nc → Mat d d) (cen : Fin nc → Vec d) (V diam weight : Fin nc → Rat)
+    (fc nrm : Fin nc → Fin m → Vec d) (s : Fin nc → Vec m)
+    (hK : ∀ c, PosDef (K c)) (hKs : ∀ c, IsSymm (K c)) (hV : ∀ c, 0 < V c) (hdiam : ∀ c, diam c ≠ 0)
+    (hw : ∀ c, 0 < weight c) (hKinv : ∀ c, ∃ i j, Kinv c i j ≠ 0) (hcov : ∀ F, ∃ c j, f c j = F) :
+    IsSymm (assemble nf nc m f fun c =>
+      mvemMassWith d m (Ginv c) (K c) (Kinv c) (cen c) (V c) (fc c) (nrm c) (s c) (diam c) (weight c)) ∧
+    PosDef (assemble nf nc m f fun c =>
+      mvemMassWith d m (Ginv c) (K c) (Kinv c) (cen c) (V c) (fc c) (nrm c) (s c) (diam c) (weight c)) :=
+  ⟨assemble_symm _ _ _ f _ (fun c => mvem_local_mass_symmetric d m (K c) (Kinv c) (Ginv c) (cen c) (V c)
+      (diam c) (weight c) (fc c) (nrm c) (s c) (hKs c)),
+   assemble_spd _ _ _ f _
+     (fun c => posDef_semidef _ (mvem_local_mass_spd d m (K c) (Kinv c) (Ginv c) (cen c) (V c) (diam c)
+        (weight c) (fc c) (nrm c) (s c) (hK c) (hV c) (hdiam c) (hw c) (hKinv c)))
+     (fun F => by
+        obtain ⟨c, j, h⟩ := hcov F
+        exact ⟨c, j, h, mvem_local_mass_spd d m (K c) (Kinv c) (Ginv c) (cen c) (V c) (diam c)
+          (weight c) (fc c) (nrm c) (s c) (hK c) (hV c) (hdiam c) (hw c) (hKinv c)⟩)⟩
+
+/-- UNIQUE SOLVABILITY of the saddle-point system `[[M, Bᵀ],[B, 0]]`: `M` positive definite and
+    `Bᵀ` injective (`B` of full row rank) ⇒ two solutions for the same right-hand side coincide. -/
+theorem saddle_point_unique {nf nc : Nat} (M : Mat nf nf) (B : Mat nc nf) (hM : PosDef M)
+    (hB : ∀ p : Vec nc, (∀ F, mulVec (transpose B) p F = 0) → ∀ c, p c = 0)
+    (r1 : Vec nf) (r2 : Vec nc) (u u' : Vec nf) (p p' : Vec nc)
+    (h1 : ∀ F, mulVec M u F + mulVec (transpose B) p F = r1 F) (h2 : ∀ c, mulVec B u c = r2 c)
+    (h1' : ∀ F, mulVec M u' F + mulVec (transpose B) p' F = r1 F) (h2' : ∀ c, mulVec B u' c = r2 c) :
+    (∀ F, u F = u' F) ∧ ∀ c, p c = p' c :=
+  saddle_unique' M B hM hB r1 r2 u u' p p' h1 h2 h1' h2'
+
+/-- FULL ROW RANK of `B = -cell_facesᵀ` from a spanning-tree certificate (= the grid is connected
+    and has a boundary, i.e. Dirichlet, face): a root cell with a face `rootFace` that no other cell
+    touches, and for every other cell a face `link c` shared only with a cell `parent c` of smaller
+    rank.  Then `Bᵀ p = 0 ⇒ p = 0`. -/
+theorem div_full_row_rank {nf nc : Nat} (B : Mat nc nf) (root : Fin nc) (rootFace : Fin nf)
+    (parent : Fin nc → Fin nc) (link : Fin nc → Fin nf) (rank : Fin nc → Nat)
+    (hroot : B root rootFace ≠ 0) (hroot' : ∀ c, c ≠ root → B c rootFace = 0)
+    (hlink : ∀ c, c ≠ root → B c (link c) ≠ 0 ∧ rank (parent c) < rank c ∧
+      ∀ c', c' ≠ c → c' ≠ parent c → B c' (link c) = 0)
+    (p : Vec nc) (hp : ∀ F, mulVec (transpose B) p F = 0) : ∀ c, p c = 0 :=
+  full_rank_of_tree' B root rootFace parent link rank hroot hroot' hlink p hp
+
+/-- GLOBAL EXACTNESS, generic in the local matrices: if in every cell the exact values satisfy the
+    local face rows and the local cell row, then they satisfy the assembled system with the
+    Dirichlet right-hand side `-faceSign F · P F`; if moreover the global mass matrix is positive
+    definite and `Bᵀ` is injective, EVERY solution of the assembled system is the exact one. -/
+theorem mixed_linear_exact_global (nf nc m : Nat) (f : Fin nc → Fin m → Fin nf) (L : Fin nc → Mat m m)
+    (s : Fin nc → Vec m) (uex : Vec nf) (pex : Vec nc) (P : Vec nf)
+    (hloc : ∀ c j, localResidual (L c) (s c) (restrict uex (f c)) (pex c) (restrict P (f c)) j = 0)
+    (hdiv : ∀ c, localDivergence (s c) (restrict uex (f c)) = 0)
+    (hM : PosDef (assemble nf nc m f L))
+    (hB : ∀ p : Vec nc, (∀ F, mulVec (transpose (divMat nf nc m f s)) p F = 0) → ∀ c, p c = 0)
+    (u : Vec nf) (p : Vec nc)
+    (h1 : ∀ F, mulVec (assemble nf nc m f L) u F + mulVec (transpose (divMat nf nc m f s)) p F
+        = - faceSign nf nc m f s F * P F)
+    (h2 : ∀ c, mulVec (divMat nf nc m f s) u c = 0) :
+    (∀ F, u F = uex F) ∧ ∀ c, p c = pex c := by
+  obtain ⟨g1, g2⟩ := global_rows_exact' nf nc m f L s uex pex P hloc hdiv
+  exact saddle_unique' _ _ hM hB (fun F => - faceSign nf nc m f s F * P F) (fun _ => 0) u uex p pex h1 h2 g1 g2
+
+/-- GLOBAL EXACTNESS OF RT0 on a simplex grid: global normals `N F`, face centres `XF F`, per cell
+    vertices `x c` (vertex `j` opposite to local face `j`), constant `K`.  Any solution `(u, p)` of the
+    assembled RT0 system with Dirichlet data from `p(y) = a·y + b` has `u F = −K a · N F` on every
+    face and `p c = p(x_c)` in every cell. -/
+theorem rt0_linear_exact_global (d nf nc : Nat) (hd : 1 ≤ d) (f : Fin nc → Fin (d + 1) → Fin nf)
+    (K Kinv : Mat d d) (V : Fin nc → Rat) (x : Fin nc → Fin (d + 1) → Vec d) (s : Fin nc → Vec (d + 1))
+    (N XF : Fin nf → Vec d) (hinv : IsInverse Kinv K) (hKpd : PosDef Kinv) (hV : ∀ c, 0 < V c)
+    (hx : ∀ c, AffineIndep (x c)) (hs : ∀ c j, s c j ≠ 0) (hcov : ∀ F, ∃ c j, f c j = F)
+    (hXF : ∀ c j, faceCentre (x c) j = XF (f c j))
+    (hdivthm : ∀ c, DivThm (V c) (s c) (faceCentre (x c)) (fun j => N (f c j)))
+    (hB : ∀ p : Vec nc, (∀ F, mulVec (transpose (divMat nf nc (d + 1) f s)) p F = 0) → ∀ c, p c = 0)
+    (a : Vec d) (b : Rat) (u : Vec nf) (p : Vec nc)
+    (h1 : ∀ F, mulVec (assemble nf nc (d + 1) f fun c => rt0Mass d Kinv (V c) (x c) (s c)) u F
+        + mulVec (transpose (divMat nf nc (d + 1) f s)) p F
+        = - faceSign nf nc (d + 1) f s F * linP a b (XF F))
+    (h2 : ∀ c, mulVec (divMat nf nc (d + 1) f s) u c = 0) :
+    (∀ F, u F = dot (darcy K a) (N F)) ∧ ∀ c, p c = linP a b (centroid (x c)) := by
+  refine mixed_linear_exact_global nf nc (d + 1) f (fun c => rt0Mass d Kinv (V c) (x c) (s c)) s
+    (fun F => dot (darcy K a) (N F)) (fun c => linP a b (centroid (x c))) (fun F => linP a b (XF F))
+    (fun c j => ?_) (fun c => ?_) ?_ hB u p h1 h2
+  · have h := (rt0_linear_exact_local d hd K Kinv (V c) (hV c).ne' (x c) (fun j => N (f c j)) (s c) hinv
+      (hdivthm c) a b).1 j
+    simp only [hXF] at h
+    exact h
+  · exact (rt0_linear_exact_local d hd K Kinv (V c) (hV c).ne' (x c) (fun j => N (f c j)) (s c) hinv
+      (hdivthm c) a b).2
+  · exact assemble_spd _ _ _ f _
+      (fun c => rt0_local_mass_psd d Kinv (V c) (x c) (s c) (posDef_semidef _ hKpd) (hV c))
+      (fun F => by
+        obtain ⟨c, j, h⟩ := hcov F
+        exact ⟨c, j, h, rt0_local_mass_spd d hd Kinv (V c) (x c) (s c) hKpd (hV c) (hx c) (hs c)⟩)
+
+/-- `project_flux` at grid level: from the global vector of exact face fluxes of a constant velocity
+    `U`, the P0 reconstruction in every cell (at any evaluation point) is `U`. -/
+theorem project_flux_exact_global (d nf nc : Nat) (hd : 1 ≤ d) (f : Fin nc → Fin (d + 1) → Fin nf)
+    (V : Fin nc → Rat) (x : Fin nc → Fin (d + 1) → Vec d) (s : Fin nc → Vec (d + 1)) (N : Fin nf → Vec d)
+    (hV : ∀ c, V c ≠ 0) (hs : ∀ c g, s c g * s c g = 1)
+    (hdivthm : ∀ c, DivThm (V c) (s c) (faceCentre (x c)) (fun j => N (f c j)))
+    (hden : ∀ c g, dot (vsub (faceCentre (x c) g) (x c g)) (N (f c g)) = s c g * (d * V c))
+    (U : Vec d) (u : Vec nf) (hu : ∀ F, u F = dot U (N F)) (pt : Fin nc → Vec d) (c : Fin nc) (a' : Fin d) :
+    sumFin (d + 1) (fun g => u (f c g) *
+      rt0Proj d (pt c) (x c) (faceCentre (x c)) (fun j => N (f c j)) g a') = U a' := by
+  have h := rt0_projection_exact d hd (V c) (hV c) (x c) (fun j => N (f c j)) (s c) (hs c) (hdivthm c)
+    (hden c) U (pt c) a'
+  simp only [hu]
+  exact h
+
 /-! ## non-vacuity: every hypothesis above is satisfied by concrete, non-trivial rational data
 (segment `[1/2, 2]`, a negatively oriented triangle, a tetrahedron; anisotropic tensors; mixed signs) -/
 
@@ -336,5 +460,24 @@ example : ∀ f, localResidual (mvemMass 2 3 exK2 (invMatrix 2 exK2) (centroid e
 example : mulVec (mvemPiOf 2 3 exK2 (centroid exTri) (23/16) (faceCentre exTri) exS3 (5/2))
       (mulVec (mvemD 2 3 exK2 (fun f c => exS3 f * (-1 * simplexNormal2 exTri f c)) (5/2)) (vec2 3 (-1))) 0 = 3 := by
   decide +kernel
+
+/-- the two-triangle grid: every face is covered, `B = -cell_facesᵀ` has full row rank by the
+    spanning-tree certificate (root cell 0 with boundary face 0, cell 1 linked through face 2) -/
+example : ∀ F : Fin 5, ∃ c j, exF c j = F := by decide +kernel
+
+example : ∀ p : Vec 2, (∀ F, mulVec (transpose (divMat 5 2 3 exF exSg)) p F = 0) → ∀ c, p c = 0 :=
+  div_full_row_rank (divMat 5 2 3 exF exSg) 0 0 (fun _ => 0) (fun _ => 2) (fun c => c.val)
+    (by decide +kernel) (by decide +kernel) (by decide +kernel)
+
+example : PosDef (assemble 5 2 3 exF fun c => rt0Mass 2 (invMatrix 2 exK2) (23/16) exTri (exSg c)) := by
+  have hinv := inv_matrix_correct_2d exK2 (by unfold IsSymm; decide +kernel) (by decide +kernel)
+  have hpd : PosDef (invMatrix 2 exK2) :=
+    posDef_inv exK2 _ (posDef_2d exK2 (by unfold IsSymm; decide +kernel) (by decide +kernel) (by decide +kernel)) hinv
+  exact (rt0_global_mass_spd 2 5 2 (by norm_num) exF (fun _ => invMatrix 2 exK2) (fun _ => 23/16) (fun _ => exTri) exSg
+    (fun _ => hpd) (fun _ => by unfold IsSymm; decide +kernel) (fun _ => by decide +kernel)
+    (fun _ => affineIndep_2d exTri (by decide +kernel)) (by decide +kernel) (by decide +kernel)).2
+
+/-- uniqueness is not vacuous: the assembled 2-cell system satisfies its hypotheses (previous two examples) -/
+example : faceSign 5 2 3 exF exSg 2 = 0 ∧ faceSign 5 2 3 exF exSg 0 = 1 := by decide +kernel
 
 end PorepyVerif.C18
